@@ -13,7 +13,7 @@ pub fn def() -> PropDef {
         level: "exploration",
         profile,
         oracle: |_cfg| Box::new(C04::default()),
-        quick_runs: 40_000,
+        quick_runs: 100_000,
         thorough_runs: 1_000_000,
         panic_is_violation: false,
         rule: "run = seeded program mixing local commits, empty commits, merges, gossip, forks, actor switches, isolation and clean restarts; every change is checked at creation against the creating replica's pre-state (seq, start_op, deps) and after every event heads = maximal applied changes; non-trivial = run has a merge/delivery between two commits of one actor, an isolated commit, or an actor switch; distinct by digest of the change DAG shape",
